@@ -5,6 +5,7 @@ import LC.Props.C08
 #print axioms LC.V2Match.match_total_lines
 #print axioms LC.V2Match.match_no_panic
 #print axioms LC.V2Match.prepare_wf
+#print axioms LC.V2Match.matchLess_confidence_first
 #print axioms LC.V2Tok.decodeRune_width
 #print axioms LC.V2Tok.decodeRune_local
 #print axioms LC.V2Tok.feed_eq_decodeAll
